@@ -672,7 +672,15 @@ def parser_round6(R, P):
             bad = sorted(nme for nme, ex in names.items() if all(ex_ for ex_ in ex))
             R.check(bool(names) and not bad, "ESCAPE-AGREE", "scan-steps-over-every-escaped-character", "%s in parse_string()" % CJ, "after a backslash the scan steps over the next character whatever it is",
                     "in the first pass of parse_string the step over the character after a backslash is conditional for %s: `\\\\\\\\` in front of the closing quote swallows the quote, a value ending in a backslash (which the writer emits as `\\\\\\\\`) cannot be read back" % bad)
+    cd_ = P.fn("compare_double")
     g = P.fn("print_number")
+    if cd_ is not None and g is not None:
+        # the 15-digit text is accepted when it re-reads `equal` to the value: a text that overflows to infinity must not count
+        fin = [e for fn_ in (cd_, g) for e in fn_.all_events() if e.kind == "call" and any(k_ in (e.node.get("callee") or "") for k_ in ("isinf", "isfinite", "isnan", "fpclassify"))]
+        in_cmp = [e for e in cd_.all_events() if e.kind == "call" and any(k_ in (e.node.get("callee") or "") for k_ in ("isinf", "isfinite", "isnan", "fpclassify"))]
+        # (print_number's own isnan/isinf test is about the VALUE; the re-read text needs one of its own)
+        R.check(bool(in_cmp), "NUMBER", "compare_double:non-finite-never-equal", "%s in compare_double()" % CJ, "a non-finite operand is never `equal within epsilon` to a finite one",
+                "compare_double(inf, d) is `inf <= inf * DBL_EPSILON`, which holds: print_number accepts the 15-digit text of DBL_MAX although it re-reads as infinity (the document then parses to inf and prints as null)")
     if R.require(g is not None, "print_number not found"):
         sizes = []
         for b in g.blocks.values():
